@@ -20,6 +20,9 @@ pub struct RunConfig {
     /// explicit fees at init (None = network defaults)
     pub fees: Option<FeeSpec>,
     pub quiesce: bool,
+    /// C17 only: index of the watchdog target configuration (0..5)
+    #[serde(default)]
+    pub watchdog_target: u8,
 }
 
 #[derive(Clone, Debug, PartialEq, Eq, Serialize, Deserialize)]
@@ -128,6 +131,23 @@ pub enum Event {
     Time { secs: u64 },
     /// run heartbeats with honest immediate replies until nothing is left to do (bounded)
     Quiesce,
+    /// C17: one watchdog round against the stub explorers / stub canister
+    WatchdogRound(RoundSpec),
+}
+
+/// What each explorer answers in a round: (kind, value). kind 0 = height `value` in the
+/// explorer's own format; other kinds are failures (see watchdog_sim.rs).
+#[derive(Clone, Debug, PartialEq, Eq, Serialize, Deserialize)]
+pub struct RoundSpec {
+    pub explorers: Vec<(u8, u64)>,
+    /// registration order of the mocks (indices into the provider list)
+    pub order: Vec<u8>,
+    /// None = the get_blockchain_info call fails
+    pub canister_height: Option<u64>,
+    /// the canister's api_access flag; None = get_config fails
+    pub actual_flag: Option<bool>,
+    pub set_config_fails: bool,
+    pub permute_seed: u64,
 }
 
 impl Event {
@@ -141,6 +161,7 @@ impl Event {
             Event::Upgrade { .. } => "upgrade",
             Event::Time { .. } => "time",
             Event::Quiesce => "quiesce",
+            Event::WatchdogRound(_) => "watchdog_round",
         }
     }
 }
